@@ -45,6 +45,13 @@ FOREIGN = {
 }
 
 
+def clear_and_build(s):
+    """'building twice': the same schema object is cleared and built again."""
+    s.maps.clear()
+    s.build()
+    return s
+
+
 def sig(s):
     out = []
     for g in s.maps.iter_globals():
@@ -128,12 +135,17 @@ def variants(head, comps, rnd, d):
     yield 'split', write(d, 'split.xsd', schema_doc(hx, parts[0], pre)), True
     # T3 location spellings, and the same file reached twice
     sp = [lambda x: './' + x, lambda x: 'sub/../' + x, lambda x: os.path.join(d, x), lambda x: 'file://' + os.path.join(d, x),
-          lambda x: x.replace('inc', '%69nc')]
+          lambda x: x.replace('inc', '%69nc'), lambda x: os.path.join(d, 'sub', '..', x),
+          lambda x: 'file://' + os.path.join(d, 'sub', '..', x)]
     pre = ''.join(imports) + ''.join('<xs:include schemaLocation="%s"/>' % rnd.choice(sp)(x) for x in incs)
     yield 'split_spelled', write(d, 'split2.xsd', schema_doc(hx, parts[0], pre)), True
     pre = ''.join(imports) + ''.join('<xs:include schemaLocation="%s"/><xs:include schemaLocation="%s"/>'
                                      % (sp[0](x), sp[1](x)) for x in incs)
     yield 'double_include', write(d, 'split3.xsd', schema_doc(hx, parts[0], pre)), True
+    for j, (i1, i2) in enumerate(((0, 5), (2, 6), (3, 5))):
+        pre = ''.join(imports) + ''.join('<xs:include schemaLocation="%s"/><xs:include schemaLocation="%s"/>'
+                                         % (sp[i1](x), sp[i2](x)) for x in incs)
+        yield 'double_include_dotted%d' % j, write(d, 'split4_%d.xsd' % j, schema_doc(hx, parts[0], pre)), True
     # T4 imports of different namespaces in another order
     yield 'import_order', write(d, 'imp.xsd', schema_doc(hx, comps, ''.join(reversed(imports)))), True
 
@@ -193,8 +205,8 @@ def judge_generated(rnd, st):
                 ref = s
                 ref_sig = sig(ref)
                 # T5 rebuild / copy / pickle
-                for n5, mk in (('rebuild', lambda: cls(path)), ('copy', lambda: copy.copy(ref)),
-                               ('pickle', lambda: pickle.loads(pickle.dumps(ref)))):
+                for n5, mk in (('rebuild', lambda: cls(path)), ('clear_and_build', lambda: clear_and_build(cls(path))),
+                               ('copy', lambda: copy.copy(ref)), ('pickle', lambda: pickle.loads(pickle.dumps(ref)))):
                     try:
                         s5 = mk()
                         if not s5.built:
@@ -309,8 +321,8 @@ def judge_corpus(path, rnd, st, mirror):
         # all re-stored variants are made BEFORE any probe is validated: a probe with location hints
         # may legitimately load further schemas into the maps of the schema that validates it
         made = []
-        for n5, mk in (('rebuild', lambda: cls(path)), ('copy', lambda: copy.copy(ref)),
-                       ('pickle', lambda: pickle.loads(pickle.dumps(ref)))):
+        for n5, mk in (('rebuild', lambda: cls(path)), ('clear_and_build', lambda: clear_and_build(cls(path))),
+                       ('copy', lambda: copy.copy(ref)), ('pickle', lambda: pickle.loads(pickle.dumps(ref)))):
             try:
                 s5 = mk()
                 if not s5.built:
